@@ -407,6 +407,16 @@ fn run_op(c: &mut Case, t: &[&str]) -> String {
             c.db.verif_evict_cache_if_needed();
             "ok".into()
         }
+        "evictsync" => {
+            // which of the listed files did the pressure-driven eviction (inside the analyses so
+            // far) drop from file_cache?  The set is hash-order dependent: an input of the model.
+            let gone: Vec<String> = t[1..]
+                .iter()
+                .filter(|r| !c.db.file_cache.contains_key(&c.abs(r)))
+                .map(|r| r.to_string())
+                .collect();
+            format!("ok evicted={}", if gone.is_empty() { "-".to_string() } else { gone.join(",") })
+        }
         "plugin" => {
             // mark a file as pytest11 plugin file (what the venv scan does before analysing it)
             let p = c.abs(t[1]);
